@@ -251,12 +251,15 @@ theorem Denotes.mono {bytes : List UInt8} {o : Offsets.Obj (Prim R)} {v : Prim R
     rw [List.drop_append_of_le_length (by omega), List.take_append_of_le_length (by simp; omega)]
     exact hd
 
+/-- the lexer's positions are 31-bit: the theorems of the byte-level parsers hold for files up to this size -/
+def fileMax : Nat := 2147483647
+
 /-- an object record of the abstract backend is what `resolve_ref`'s direct branch reads at its offset,
     whatever is appended to the file; its members (if it is an object stream) are what the compressed branch
     reads out of it -/
 def ObjRep (P : Offsets.Parsers (Prim R) (Dict R)) (bytes : List UInt8) (o : Storage.Obj (Prim R)) : Prop :=
-  ∀ (ext : List UInt8) (rl : Nat → Out (Offsets.Obj (Prim R))),
-    (∃ r, Offsets.directBody P rl (bytes ++ ext) 0 .any o.off = .ok r ∧ Denotes bytes r o.val) ∧
+  ∀ (ext : List UInt8) (rl : Nat → Out (Offsets.Obj (Prim R))), (bytes ++ ext).length ≤ fileMax →
+    (∃ r, Offsets.directBody P rl (bytes ++ ext) 0 .any o.off = .ok r ∧ Denotes (bytes ++ ext) r o.val) ∧
     (∀ idx v, o.members[idx]? = some v →
       Offsets.compressedBody P (Offsets.directBody P rl (bytes ++ ext) 0 .any o.off) (bytes ++ ext) .any idx = .ok (.plain v) ∧
       ∀ info s, v ≠ .stream info s)
@@ -264,13 +267,13 @@ def ObjRep (P : Offsets.Parsers (Prim R) (Dict R)) (bytes : List UInt8) (o : Sto
 /-- a cross-reference section of the abstract backend is what `read_xref_and_trailer_at` reads at its offset -/
 def SecRep (P : Offsets.Parsers (Prim R) (Dict R)) (bytes : List UInt8) (s : Sec) : Prop :=
   s.off ≤ bytes.length ∧
-  ∀ ext : List UInt8, ∃ T, P.xrefAt ((bytes ++ ext).drop s.off) = .ok (s.subs, T) ∧ P.sizeOf T = .ok s.size ∧
+  ∀ ext : List UInt8, (bytes ++ ext).length ≤ fileMax → ∃ T, P.xrefAt ((bytes ++ ext).drop s.off) = .ok (s.subs, T) ∧ P.sizeOf T = .ok s.size ∧
     P.prevOf T = s.prev.map Out.ok
 
 structure Rep (P : Offsets.Parsers (Prim R) (Dict R)) (bytes : List UInt8) (st : St (Prim R)) : Prop where
   len : bytes.length = st.len
-  fits : st.len ≤ OffLex.usizeMax
-  header : ∀ ext : List UInt8, Offsets.locateStart (bytes ++ ext) = .ok st.start
+  small : bytes.length ≤ fileMax
+  header : ∀ ext : List UInt8, (bytes ++ ext).length ≤ fileMax → Offsets.locateStart (bytes ++ ext) = .ok st.start
   xref : Offsets.locateXref bytes = .ok st.startxref
   objs : ∀ o ∈ st.objs, ObjRep P bytes o
   secs : ∀ s ∈ st.secs, SecRep P bytes s
@@ -321,11 +324,11 @@ theorem prevChain_revs (P : Offsets.Parsers (Prim R) (Dict R)) (bytes : List UIn
             obtain ⟨hmem, hoff⟩ := secAt_some hsa
             obtain ⟨older, h1, h2, h3, h4, h5, h6, h7⟩ := ih s.prev (p :: seen) rest hpc
             obtain ⟨hle, hx⟩ := hrep.secs s hmem
-            obtain ⟨T, hT, _, hprev⟩ := hx []
+            obtain ⟨T, hT, _, hprev⟩ := hx [] (by simpa using hrep.small)
             simp only [List.append_nil] at hT
             have hread : Offsets.ReadsAt P bytes st.start ⟨p, s.subs, T⟩ := by
-              have := hrep.len; have := hrep.fits
-              refine ⟨by simp only; omega, by simp only; omega, ?_⟩
+              have := hrep.len; have := hrep.small
+              refine ⟨by simp only [OffLex.usizeMax]; unfold fileMax at *; omega, by simp only; omega, ?_⟩
               simp only; rw [← hoff]; exact hT
             refine ⟨⟨p, s.subs, T⟩ :: older, by simp [h1], ?_, ?_, by simp, ?_, ?_, by simp; omega⟩
             · intro r hr
@@ -400,10 +403,10 @@ theorem open_of_rep (P : Offsets.Parsers (Prim R) (Dict R)) (bytes : List UInt8)
   obtain ⟨hmem, hoff⟩ := secAt_some hsa
   obtain ⟨older, h1, h2, h3, h4, h5, _, h7⟩ := prevChain_revs P bytes st hrep _ _ _ _ hpc
   obtain ⟨hle, hx⟩ := hrep.secs s hmem
-  obtain ⟨T, hT, hsize, hprev⟩ := hx []
+  obtain ⟨T, hT, hsize, hprev⟩ := hx [] (by simpa using hrep.small)
   simp only [List.append_nil] at hT
   have hlen := hrep.len
-  have hfits := hrep.fits
+  have hfits : bytes.length ≤ OffLex.usizeMax := by have := hrep.small; unfold fileMax at this; unfold OffLex.usizeMax; omega
   have hlink : Offsets.Linked P ((⟨st.startxref, s.subs, T⟩ : Offsets.Rev (Dict R)) :: older) := by
     cases older with
     | nil => simp only [Offsets.Linked]; rw [hprev, h4]; rfl
@@ -412,7 +415,7 @@ theorem open_of_rep (P : Offsets.Parsers (Prim R) (Dict R)) (bytes : List UInt8)
     (by simp only; omega) (by simp only; omega) (by simp only; rw [← hoff]; exact hT) hsize
     (by unfold Offsets.maxId; unfold MAX_ID at hsz; exact hsz) h2 hlink h5 (by omega)
   simp only [List.map_cons, h1, hm, Offsets.withTrailer] at this
-  have hh := hrep.header []
+  have hh := hrep.header [] (by simpa using hrep.small)
   simp only [List.append_nil] at hh
   exact ⟨T, by simp only [Offsets.openFile, hh, this]⟩
 
@@ -444,8 +447,9 @@ theorem resolve_of_rep (P : Offsets.Parsers (Prim R) (Dict R)) (bytes : List UIn
         simp only [ho, Rd.val.injEq] at h
         obtain ⟨hmem, hoff⟩ := objAt_some ho
         obtain ⟨⟨r, hr, hden⟩, _⟩ := hrep.objs o hmem []
-          (fun lid => Offsets.resolveRef P bytes st.start t (fuel + 1) [] .integer lid)
+          (fun lid => Offsets.resolveRef P bytes st.start t (fuel + 1) [] .integer lid) (by simpa using hrep.small)
         simp only [List.append_nil] at hr
+        simp only [List.append_nil] at hden
         refine ⟨r, ?_, h ▸ hden⟩
         simp only [Offsets.resolveRef, Xref.lookup, ht]
         rw [directBody_zero, ← hoff]; exact hr
@@ -473,12 +477,261 @@ theorem resolve_of_rep (P : Offsets.Parsers (Prim R) (Dict R)) (bytes : List UIn
               subst h
               obtain ⟨hmem, hoff⟩ := objAt_some ho
               obtain ⟨_, hmemb⟩ := hrep.objs o hmem []
-                (fun lid => Offsets.resolveRef P bytes st.start t fuel [sid] .integer lid)
+                (fun lid => Offsets.resolveRef P bytes st.start t fuel [sid] .integer lid) (by simpa using hrep.small)
               obtain ⟨hcb, hns⟩ := hmemb idx v' hm
               simp only [List.append_nil] at hcb
               refine ⟨.plain v', ?_, .plain v' hns⟩
               have hnc : ([] : List Nat).contains sid = false := by simp
               simp only [Offsets.resolveRef, Xref.lookup, ht, hs, hnc, Bool.false_eq_true, if_false]
               rw [directBody_zero, ← hoff]; exact hcb
+
+/-! ### the records `save` writes are read back -/
+
+/-- a value for which the byte-level round trip is proved: a direct object within the limits of
+    `C04.parse_serialize_indirect`, or a stream with pending data whose `/Length` is the integer `data.length` -/
+inductive OKVal (fmt : R → List UInt8) (pr : List UInt8 → Option R) : Prim R → Prop
+  | direct (v : Prim R) (hs : Serialisable fmt pr v) (hw : WF v) (hd : vdepth v ≤ maxDepth) : OKVal fmt pr v
+  | stream (info : Dict R) (data : List UInt8) (hs : SerialisableE fmt pr info) (hw : WFE info)
+      (hn : (keysOf info).Nodup) (hl : dictGet info kwLength = some (.int (data.length : Int)))
+      (hd : 1 + vdepthE info ≤ maxDepth) : OKVal fmt pr (.stream info (.pending data))
+
+theorem suffixAt_zero (buf : List UInt8) (off : Nat) (h : off ≤ buf.length) (hm : buf.length ≤ fileMax) :
+    Offsets.suffixAt buf 0 off = .ok (off, buf.drop off) := by
+  have : ¬ off > OffLex.usizeMax := by unfold fileMax at hm; unfold OffLex.usizeMax; omega
+  simp [Offsets.suffixAt, Offsets.checkedAdd, Offsets.readFrom, this, h]
+
+theorem toObjParse_plain (v : Prim R) (id : Nat × Nat) (p : Nat) (h : ∀ info s, v ≠ .stream info s) :
+    Offsets.toObjParse (.ok ((id, v), p)) = .ok (.plain v) := by
+  cases v <;> first | rfl | exact absurd rfl (h _ _)
+
+/-- a direct object framed by `save` at `off` -/
+theorem objRep_direct (fmt : R → List UInt8) (env : Env R) (hd : env.decrypt = none) (pfuel : Nat)
+    (dec : Dict R → List UInt8 → Out (List UInt8)) (bytes : List UInt8) (o : Storage.Obj (Prim R))
+    (hs : Serialisable fmt env.parseReal o.val) (hw : WF o.val) (hdep : vdepth o.val ≤ maxDepth)
+    (hid : o.id ≤ 18446744073709551615) (hgen : o.gen ≤ 18446744073709551615) (hm : o.members = [])
+    (body rest : List UInt8) (hser : serialize fmt o.val = .ok body)
+    (hbytes : bytes.drop o.off = objFrame o.id o.gen body ++ rest) (hpf : 3 * bytes.length ≤ pfuel) :
+    ObjRep (parsers env pfuel dec) bytes o := by
+  intro ext rl hsmall
+  have hns : ∀ info s, o.val ≠ .stream info s := by
+    intro info s he; rw [he] at hs; exact hs
+  have hlen : (objFrame o.id o.gen body ++ rest).length = bytes.length - o.off := by rw [← hbytes]; simp
+  have hpos : 0 < (objFrame o.id o.gen body).length := objFrame_length_pos _ _ _
+  have hoff : o.off ≤ bytes.length := by simp only [List.length_append] at hlen; omega
+  refine ⟨?_, by intro idx v hv; rw [hm] at hv; simp at hv⟩
+  have hsfx : (bytes ++ ext).drop o.off = objFrame o.id o.gen body ++ (rest ++ ext) := by
+    rw [List.drop_append_of_le_length hoff, hbytes, List.append_assoc]
+  obtain ⟨txt, trail, h1, h2, _, _⟩ := serialize_spells fmt env.parseReal o.val hs
+  have hnb := need_bound env.parseReal o.val txt h2
+  obtain ⟨body', hb', hparse⟩ := C04.parse_serialize_indirect { env with fileOffset := 0 } hd fmt o.val hs hw hdep o.id o.gen hid hgen
+  rw [hser] at hb' h1
+  simp only [Out.ok.injEq] at hb' h1
+  subst hb'
+  have hbl : body.length ≤ bytes.length := by
+    simp only [objFrame, List.length_append] at hlen; omega
+  have hneed : need o.val ≤ pfuel := by
+    have : txt.length ≤ body.length := by rw [h1]; simp
+    omega
+  have hp := hparse (buf := ((bytes ++ ext).drop o.off).toArray)
+    (by have : ((bytes ++ ext).drop o.off).length ≤ (bytes ++ ext).length := by simp
+        unfold fileMax at hsmall; simpa using Nat.le_trans this hsmall)
+    [] (rest ++ ext) pfuel (by simp [hsfx]) hneed
+  refine ⟨.plain o.val, ?_, .plain o.val hns⟩
+  have hsa := suffixAt_zero (bytes ++ ext) o.off (by simp only [List.length_append]; omega) hsmall
+  simp only [Offsets.directBody, hsa]
+  simp only [List.length_nil] at hp
+  have hobj : (parsers env pfuel dec).objAt .any ((bytes ++ ext).drop o.off) = .ok (.plain o.val) := by
+    show Offsets.toObjParse (parseIndirectObject { env with fileOffset := 0 } ((bytes ++ ext).drop o.off).toArray pfuel 0
+      (Offsets.flagsNat .any)) = _
+    rw [show Offsets.flagsNat .any = Flags.any from rfl, hp, toObjParse_plain _ _ _ hns]
+  rw [hobj]
+
+/-- a stream object with pending data written at `off`: `id gen obj\n<stream>` `g4` `endobj\n` (two line feeds
+    before `endobj` in an ordinary record, one in the cross-reference stream object) -/
+theorem objRep_stream (env : Env R) (hd : env.decrypt = none) (pfuel : Nat)
+    (dec : Dict R → List UInt8 → Out (List UInt8)) (bytes : List UInt8) (o : Storage.Obj (Prim R))
+    (info : Dict R) (data : List UInt8) (hval : o.val = .stream info (.pending data))
+    (hw : WFE info) (hn : (keysOf info).Nodup) (hl : dictGet info kwLength = some (.int (data.length : Int)))
+    (hdep : 1 + vdepthE info ≤ maxDepth)
+    (hid : o.id ≤ 18446744073709551615) (hgen : o.gen ≤ 18446744073709551615) (hm : o.members = [])
+    (txt g4 rest : List UInt8) (hsp : SpellsStream env.parseReal info data txt) (hg4 : Gap g4) (hg4ne : g4 ≠ [])
+    (hbytes : bytes.drop o.off =
+      (fmtNat o.id ++ [32] ++ fmtNat o.gen ++ [32] ++ kwObj ++ [10] ++ txt ++ g4 ++ kwEndobj ++ [10]) ++ rest)
+    (hpf : 3 * bytes.length ≤ pfuel) :
+    ObjRep (parsers env pfuel dec) bytes o := by
+  intro ext rl hsmall
+  refine ⟨?_, by intro idx v hv; rw [hm] at hv; simp at hv⟩
+  have hlen := congrArg List.length hbytes
+  simp only [List.length_drop, List.length_append] at hlen
+  have hk : kwObj.length = 3 := rfl
+  have hoff : o.off ≤ bytes.length := by omega
+  have hsa := suffixAt_zero (bytes ++ ext) o.off (by simp only [List.length_append]; omega) hsmall
+  have hsfx : (bytes ++ ext).drop o.off =
+      [] ++ fmtNat o.id ++ [32] ++ fmtNat o.gen ++ [32] ++ kwObj ++ [10] ++ txt ++ g4 ++ kwEndobj ++ ([10] ++ rest ++ ext) := by
+    rw [List.drop_append_of_le_length hoff, hbytes]; simp
+  have hsl : ((bytes ++ ext).drop o.off).length = (bytes ++ ext).length - o.off := by simp
+  have hsz : ((bytes ++ ext).drop o.off).toArray.size ≤ 2147483647 := by
+    unfold fileMax at hsmall; simp only [List.size_toArray, hsl]; omega
+  have hsuf : Suffix ((bytes ++ ext).drop o.off).toArray 0
+      ([] ++ fmtNat o.id ++ [32] ++ fmtNat o.gen ++ [32] ++ kwObj ++ [10] ++ txt ++ g4 ++ kwEndobj ++ ([10] ++ rest ++ ext)) := by
+    rw [← hsfx]; exact suffix_zero _
+  have hfuel : 2 + needE info ≤ pfuel := by
+    obtain ⟨g1, ents, g2, eol, g3, htxt, _, hents, _⟩ := hsp
+    have h1 := needE_bound env.parseReal _ ents hents
+    have h3 : ents.length + 2 ≤ txt.length := by rw [htxt]; simp; omega
+    omega
+  have hsp1 : Gap [32] := Gap.ws 32 [] (by decide) Gap.nil
+  have hnl : Gap [10] := Gap.ws 10 [] (by decide) Gap.nil
+  obtain ⟨dataPos, more, hp, hdata, hmore⟩ := parseIndirectObject_stream_at { env with fileOffset := 0 } hd info data txt hsp hw hn
+    (Or.inl hl) hsz [] (fmtNat o.id) [32] (fmtNat o.gen) [32] [10] g4 ([10] ++ rest ++ ext) o.id o.gen 0 pfuel Gap.nil
+    (fmtNat_spec o.id) (fmtNat_spec o.gen) hsp1 (by simp) hsp1 (by simp) hid hgen hnl hg4 hg4ne hsuf (by simp [Bnd]; decide)
+    hfuel hdep Flags.any (by decide)
+  have hsize := hdata.size_eq
+  simp only [List.size_toArray, hsl, List.length_append] at hsize
+  have hmp : 0 < more.length := by cases more with | nil => exact absurd rfl hmore | cons => simp
+  have hobj : (parsers env pfuel dec).objAt .any ((bytes ++ ext).drop o.off)
+      = .ok (.stream (.dict info) dataPos (.direct data.length)) := by
+    show Offsets.toObjParse (parseIndirectObject { env with fileOffset := 0 } ((bytes ++ ext).drop o.off).toArray pfuel 0
+      (Offsets.flagsNat .any)) = _
+    rw [show Offsets.flagsNat .any = Flags.any from rfl, hp]
+    simp [Offsets.toObjParse, streamAt]
+  have hfin : ¬ (dataPos + data.length ≥ ((bytes ++ ext).drop o.off).length) := by
+    rw [hsl]; simp only [List.length_append]; omega
+  refine ⟨.stream (.dict info) (o.off + dataPos) (o.off + dataPos + data.length), ?_, ?_⟩
+  · simp only [Offsets.directBody, hsa, hobj, Offsets.streamWithLen, Offsets.finishStream, hfin, if_false]
+    rfl
+  · rw [hval]
+    refine .stream info (o.off + dataPos) data (by simp only [List.length_append] at hsize ⊢; omega) ?_
+    have h1 := hdata.1
+    simp only [List.drop_drop] at h1
+    rw [h1, List.take_left']
+    rfl
+
+/-! ### `saveB` keeps the representation -/
+
+theorem ObjRep.extend {P : Offsets.Parsers (Prim R) (Dict R)} {bytes : List UInt8} {o : Storage.Obj (Prim R)}
+    (h : ObjRep P bytes o) (more : List UInt8) : ObjRep P (bytes ++ more) o := by
+  intro ext rl hx
+  have := h (more ++ ext) rl (by simpa [List.append_assoc] using hx)
+  simpa [List.append_assoc] using this
+
+theorem SecRep.extend {P : Offsets.Parsers (Prim R) (Dict R)} {bytes : List UInt8} {s : Sec}
+    (h : SecRep P bytes s) (more : List UInt8) : SecRep P (bytes ++ more) s := by
+  refine ⟨by have := h.1; simp; omega, ?_⟩
+  intro ext hx
+  have := h.2 (more ++ ext) (by simpa [List.append_assoc] using hx)
+  simpa [List.append_assoc] using this
+
+theorem isRow_of_rowOf (e r : XRef) (h : rowOf e = some r) : IsRow r := by
+  cases e <;> simp [rowOf] at h <;> subst h <;> trivial
+
+/-- every row of a successful save is a free, in-use or compressed entry whose fields fit the widths -/
+theorem rows_fit (P : Params (Prim R)) (L : Layout) (hL : L.Pos) (d0 d d' : Doc (Prim R)) (chain0) (i : SaveInfo)
+    (hb : BaseOK d0 chain0) (hi : Inv d0 d) (h : save P L d = (d', .ok i)) :
+    (∀ r ∈ i.rows, IsRow r) ∧ (∀ r ∈ i.rows, Xref.Fits 1 i.aw i.bw r) := by
+  have sh := save_shape P L hL d0 d d' chain0 i hb hi h
+  obtain ⟨_, _, hw⟩ := width_fits P L hL d0 d d' chain0 i hb hi h
+  have hrow : ∀ r ∈ i.rows, IsRow r := by
+    intro r hr
+    obtain ⟨j, hj⟩ := List.getElem?_of_mem hr
+    have hjl : j < i.rows.length := (List.getElem?_eq_some_iff.mp hj).1
+    have hjt : j < d'.st.refs.length := by rw [sh.table_len]; have := sh.rows_len.1; omega
+    obtain ⟨r', a1, a2⟩ := sh.rows_of_table j d'.st.refs[j] (by simp [hjt])
+    rw [hj] at a2; simp only [Option.some.injEq] at a2; subst a2
+    exact isRow_of_rowOf _ _ a1
+  refine ⟨hrow, fun r hr => fits_of_fields _ _ r (hrow r hr) (fun ty a b hf => ?_)⟩
+  obtain ⟨h1, h2, _⟩ := hw r hr ty a b hf
+  exact ⟨h1, h2⟩
+
+theorem fmtNat_zero : fmtNat 0 = [48] := by decide
+
+/-- **`saveB` keeps the bytes a representation of the abstract state**: every record and the new section are
+    read back by the byte-level parsers at the offsets the abstract model says -/
+theorem rep_saveB (fmt : R → List UInt8) (env : Env R) (hd : env.decrypt = none) (pfuel : Nat)
+    (dec : Dict R → List UInt8 → Out (List UInt8)) (hdec : NoFilter dec) (d0 : Doc (Prim R)) (chain0)
+    (b b' : BDoc R) (i : SaveInfo) (hb : BaseOK d0 chain0) (hi : Inv d0 b.doc)
+    (hrep : Rep (parsers env pfuel dec) b.bytes b.doc.st) (h : saveB fmt b = (b', .ok i))
+    (hbd : Bounds b.doc.tr (prep b.doc).infoRef i)
+    (hvals : ∀ c ∈ (prep b.doc).st2.changes, OKVal fmt env.parseReal c.2.1 ∧ c.1 ≤ 18446744073709551615 ∧
+      c.2.2 ≤ 18446744073709551615)
+    (hsmall : b'.bytes.length ≤ fileMax) (hpf : 3 * b'.bytes.length ≤ pfuel) :
+    Rep (parsers env pfuel dec) b'.bytes b'.doc.st := by
+  have hlen := hrep.len
+  have sb := saveB_spec fmt env.parseReal d0 chain0 b b' i hb hi hlen h hbd
+  have bk := saveB_backend fmt d0 chain0 b b' i hb hi hlen h
+  have sh := save_shape _ _ (layoutOf_pos fmt b) d0 b.doc b'.doc chain0 i hb hi sb.doc
+  obtain ⟨hrows, hfits⟩ := rows_fit _ _ (layoutOf_pos fmt b) d0 b.doc b'.doc chain0 i hb hi sb.doc
+  have hxid : i.xid ≤ 18446744073709551615 := by have := sh.rows_len.2; have := hbd.size; omega
+  have hf := xrefDict_facts fmt env.parseReal b.doc.tr (prep b.doc).infoRef b.ids i hbd
+  obtain ⟨body, hbody, hxdrop⟩ := sb.xbody
+  obtain ⟨txt, hser, hsp⟩ := serialize_stream_ok fmt env.parseReal (xrefDict b.doc.tr b.ids (prep b.doc).infoRef i) (rowsData i) hf.ser
+  rw [hbody] at hser
+  simp only [Out.ok.injEq] at hser
+  have hxlt : b.doc.st.start + i.xpos < b'.bytes.length := by
+    have := congrArg List.length hxdrop
+    simp only [List.length_drop, List.length_append, tailBytes] at this
+    have hk : kwEOF.length = 5 := rfl
+    omega
+  have hnl : Gap [10] := Gap.ws 10 [] (by decide) Gap.nil
+  refine ⟨sb.len, hsmall, ?_, ?_, ?_, ?_⟩
+  · intro ext hx
+    rw [bk.start]
+    have := hrep.header (revisionBytes fmt b i ++ ext) (by rw [← List.append_assoc, ← sb.bytes]; exact hx)
+    rw [← List.append_assoc, ← sb.bytes] at this
+    exact this
+  · rw [bk.startxref, sb.bytes]
+    simp only [revisionBytes, ← List.append_assoc]
+    exact locateXref_tail _ i (by unfold fileMax at hsmall; omega)
+  · intro o ho
+    obtain ⟨ext, e1, e2⟩ := bk.objs
+    rw [e1] at ho
+    simp only [List.mem_append, List.mem_singleton] at ho
+    rcases ho with (ho | ho) | rfl
+    · rw [sb.bytes]; exact (hrep.objs o ho).extend _
+    · obtain ⟨hm, hmem, body', rest, hser', hdrop⟩ := e2 o ho
+      obtain ⟨hv, hid, hgen⟩ := hvals _ hmem
+      simp only at hv hid hgen
+      generalize hov : o.val = ov at hv
+      cases hv with
+      | direct v hs hw hdp =>
+        exact objRep_direct fmt env hd pfuel dec b'.bytes o (hov ▸ hs) (hov ▸ hw) (hov ▸ hdp) hid hgen hm body' rest hser' hdrop hpf
+      | stream info data hs hw hn hl hdp =>
+        obtain ⟨txt', hser2, hsp'⟩ := serialize_stream_ok fmt env.parseReal info data hs
+        rw [hov, hser2] at hser'
+        simp only [Out.ok.injEq] at hser'
+        subst hser'
+        exact objRep_stream env hd pfuel dec b'.bytes o info data hov hw hn hl hdp hid hgen hm txt' [10, 10] rest hsp'
+          (Gap.ws 10 [10] (by decide) hnl) (by simp) (by rw [hdrop]; simp [objFrame]) hpf
+    · subst hser
+      refine objRep_stream env hd pfuel dec b'.bytes _ (xrefDict b.doc.tr b.ids (prep b.doc).infoRef i) (rowsData i) rfl hf.wf hf.nodup
+        hf.length (by have := hf.depth; unfold maxDepth; omega) hxid (by show (0 : Nat) ≤ 18446744073709551615; omega) rfl txt [10] (tailBytes i) hsp hnl (by simp)
+        ?_ hpf
+      show b'.bytes.drop (b.doc.st.start + i.xpos) = _
+      rw [hxdrop, fmtNat_zero]; simp
+  · intro s hs
+    rw [bk.secs] at hs
+    simp only [List.mem_append, List.mem_singleton] at hs
+    rcases hs with hs | rfl
+    · rw [sb.bytes]; exact (hrep.secs s hs).extend _
+    · refine ⟨by simp only; omega, ?_⟩
+      intro ext hx
+      have hdrop : (b'.bytes ++ ext).drop (b.doc.st.start + i.xpos) =
+          (fmtNat i.xid ++ [32, 48, 32] ++ kwObj ++ [10] ++ body ++ kwEndobj ++ [10]) ++ tailBytes i ++ ext := by
+        rw [List.drop_append_of_le_length (by omega), hxdrop]
+      have hx2 : ((fmtNat i.xid ++ [32, 48, 32] ++ kwObj ++ [10] ++ body ++ kwEndobj ++ [10]) ++ tailBytes i ++ ext).length ≤ 2147483647 := by
+        rw [← hdrop]; unfold fileMax at hx; simp only [List.length_drop]; omega
+      have hxa := xrefAt_saved fmt { env with fileOffset := 0 } hd dec hdec b.doc.tr (prep b.doc).infoRef b.ids i hbd hxid
+        hrows hfits body hbody ext hx2
+      refine ⟨xrefDict b.doc.tr b.ids (prep b.doc).infoRef i, ?_, ?_, ?_⟩
+      · show XrefTable.xrefAt { env with fileOffset := 0 } (stmC { env with fileOffset := 0 } dec)
+          ((b'.bytes ++ ext).drop (b.doc.st.start + i.xpos)) = _
+        rw [hdrop]; exact hxa
+      · show (match dictGet (xrefDict b.doc.tr b.ids (prep b.doc).infoRef i) Offsets.kwSize with
+          | some v => Offsets.asNat v | none => .err) = _
+        rw [show Offsets.kwSize = SaveBytes.kSize from rfl, hf.size]
+        simp [Offsets.asNat]
+      · show (dictGet (xrefDict b.doc.tr b.ids (prep b.doc).infoRef i) Offsets.kwPrev).map Offsets.asNat = _
+        rw [show Offsets.kwPrev = kPrev from rfl, hf.prev]
+        cases b.doc.tr.prev <;> simp [Offsets.asNat]
 
 end RepBytes
